@@ -7,11 +7,11 @@ git checkout -q -- . 2>/dev/null
 git apply SEED/patch.diff || { echo "patch.diff does not apply to a clean checkout"; exit 2; }
 T=$(cargo test --workspace --no-fail-fast --offline 2>&1 | grep "^test result" | awk '{p+=$4; f+=$6} END {print p" passed "f" failed"}')
 echo "tests with change: $T"
-sh SEED/demo.sh > /tmp/vs_with.log 2>&1; A=$?
+bash SEED/demo.sh > /tmp/vs_with.log 2>&1; A=$?
 git checkout -q -- . 2>/dev/null
 git apply -R SEED/patch.diff 2>/dev/null
 git checkout -q -- .
-sh SEED/demo.sh > /tmp/vs_without.log 2>&1; B=$?
+bash SEED/demo.sh > /tmp/vs_without.log 2>&1; B=$?
 git checkout -q -- . 2>/dev/null
 git apply SEED/patch.diff
 echo "demo with change: exit $A ; without: exit $B"
